@@ -173,9 +173,10 @@ var propRules = map[string]*PropSpec{
 		Technique:  techErr + "; taint of decoded sizes",
 	},
 	"C11": {
-		Rules:       []string{"F9", "F2", "A1.api32", "A1.slices", "A2.32", "A3.32", "A6.kernel", "U1", "F8.scratch", "A2.64", "A3.64", "F2.repair", "U3", "PT2", "P6", "P2", "LP2", "LEN1", "IDX1", "F3.32", "RES1", "GAL1"},
+		Rules:       []string{"F9", "F2", "A1.api32", "A1.slices", "A2.32", "A3.32", "A6.kernel", "U1", "F8.scratch", "A2.64", "A3.64", "F2.repair", "U3", "PT2", "P6", "P2", "LP2", "LEN1", "IDX1", "F3.32", "RES1", "GAL1", "CACHE1"},
 		Explanation: explBase + " C11: singleton behaviour of the aggregate siblings, lazy->repair discipline, inputs and the caller's slice unchanged, scratch containers never end up in the result.",
 		Decided: []string{
+			"a merge loop that carries the element under its cursor in a local reloads it whenever the cursor moves (including galloping jumps)",
 			"the position answered by a galloping search is compared with a bound before it is used as an index (directly, or as the loop's position variable)",
 			"roaring64 aggregates store only owned or properly shared buckets",
 			"every aggregate of one bitmap returns a fresh bitmap", "every lazy union result is repaired before it is returned / sent; lazy kernels mark the cardinality invalid", "aggregates never change their inputs' contents nor the caller's slice", "kernel results never alias the argument, so AndAny's reused scratch containers cannot be stored in x", "no 16-bit arithmetic in the key-range partition of ParOr", "AndAny's per-key filter list is reset, untouched or known empty on every way back to the loop header"},
@@ -242,9 +243,10 @@ var propRules = map[string]*PropSpec{
 		Technique:  techMix,
 	},
 	"C17": {
-		Rules:       []string{"A2.64", "A3.64", "F3.64", "F5", "F9", "A1.api64", "A5", "F12", "P6", "P2", "U1", "F10", "EQ1", "R2", "IDX1", "A2.stale", "LEN1", "F5.neg", "R3", "U5", "CUR1", "CUR2", "CUR3", "CUR4", "GAL1"},
+		Rules:       []string{"A2.64", "A3.64", "F3.64", "F5", "F9", "A1.api64", "A5", "F12", "P6", "P2", "U1", "F10", "EQ1", "R2", "IDX1", "A2.stale", "LEN1", "F5.neg", "R3", "U5", "CUR1", "CUR2", "CUR3", "CUR4", "GAL1", "CACHE1"},
 		Explanation: explBase + " C17: the 64-bit bitmap's bucket table obeys the same ownership discipline (bucket = container), drops emptied buckets, inserts at the right index and its aggregates return fresh bitmaps.",
 		Decided: []string{
+			"a merge loop that carries the element under its cursor in a local reloads it whenever the cursor moves (including galloping jumps)",
 			"an iterator glues the key of the current chunk/bucket to what the inner iterator yields only when no reload of the cursor lies between the two reads",
 			"every move of the inner iterator of the eager iterators is followed, before returning, by an exhaustion test that may reload the cursor",
 			"AdvanceIfNeeded hands the low half of its argument to the chunk-level iterator (or stores it as gap position) only under an equality test of the cursor key against the argument's high half",
